@@ -167,6 +167,32 @@ type TargetData struct {
 	Action int
 }
 
+// EngineData selects originals that went through the real engine instead of carrying a synthesised state. The zero
+// value (Mode 0) is "off": every case saved before this class existed decodes to it.
+type EngineData struct {
+	// Mode: 0 off; 1 the plan was handed to a real Workstream.Submit, which accepted it; 2 the plan was handed to Submit
+	// with one definition field made invalid, so that validation rejected it (Submit has then already attached the plugin
+	// register to every action) — the Submit clause repairs that field in the clone.
+	Mode int
+	// Run (Mode 1): the plan is also started and waited for (instant plugins): it "has already run".
+	Run bool
+	// FailAt (Run): < 0 every plugin call succeeds, otherwise (modulo the number of actions that have a request) the
+	// action whose plugin fails permanently.
+	FailAt int
+	// ReadBack (Mode 1): the object that is cloned is the plan the Workstream returns (Wait after a run, Plan otherwise)
+	// instead of the in-memory object that was handed to Submit.
+	ReadBack bool
+	// Defect (Mode 2): 0 blank plan description, 1 an action timeout of one second, 2 an unknown plugin name.
+	Defect int
+}
+
+// Engine modes.
+const (
+	engOff      = 0
+	engAccepted = 1
+	engRejected = 2
+)
+
 // Case is one C18 case.
 type Case struct {
 	Plan        PlanData
@@ -174,6 +200,7 @@ type Case struct {
 	KeepState   bool
 	KeepSecrets bool
 	Target      TargetData
+	Engine      EngineData
 }
 
 // ---------------------------------------------------------------------------------------------------------------------
@@ -486,9 +513,33 @@ func allTargets(p PlanData) [5][]TargetData {
 
 func genCase(t *rapid.T) Case {
 	var c Case
-	c.State.Class = rapid.IntRange(stFresh, stFailed).Draw(t, "state.class")
+	// three cases in ten take their original from the real engine (two accepted by Submit, one rejected), the others
+	// carry a synthesised state as before
+	switch rapid.IntRange(0, 9).Draw(t, "engine.mode") {
+	case 7, 8:
+		c.Engine.Mode = engAccepted
+	case 9:
+		c.Engine.Mode = engRejected
+	}
+	if c.Engine.Mode == engOff {
+		c.State.Class = rapid.IntRange(stFresh, stFailed).Draw(t, "state.class")
+	}
 	executed := c.State.Class >= stRunning
 	c.Plan = genPlan(t, executed)
+	switch c.Engine.Mode {
+	case engAccepted:
+		c.Engine.ReadBack = rapid.Bool().Draw(t, "engine.readBack")
+		c.Engine.FailAt = -1
+		// only small plans are really executed (time budget); the others are submitted only
+		if countActions(c.Plan) <= maxRunActions && rapid.Bool().Draw(t, "engine.run") {
+			c.Engine.Run = true
+			if rapid.Bool().Draw(t, "engine.fails") {
+				c.Engine.FailAt = rapid.IntRange(0, 40).Draw(t, "engine.failAt")
+			}
+		}
+	case engRejected:
+		c.Engine.Defect = rapid.IntRange(0, 2).Draw(t, "engine.defect")
+	}
 	if c.State.Class != stFresh {
 		c.State.T0Sec = rapid.Int64Range(946684800, 4102444799).Draw(t, "state.t0") // 2000 .. 2100
 		c.State.T0Nano = rapid.Int64Range(0, 999999999).Draw(t, "state.t0nano")
